@@ -222,7 +222,10 @@ def s5_outputs(ctx):
                 ctx.undecided('C14.S5', what, e.site, 'appends %s' % fmt(item)[:120])
                 continue
             unread = [s_ for s_ in T.subterms(items[1]) if s_[0] in ('havoc', 'lambda', 'lc') or (s_[0] == 'call' and s_[1] == ('ext', 'APPLY'))]
-            if items[0] == ts and items[1] == eq:
+            # (which class of the broker family defines the method - the simulated broker, or its base after a pull-up - is not what the rule is about)
+            def _by_method(t_):
+                return T.replace(t_, lambda z: ('fn', '|'.join(sorted({q_.split('.')[-1] for q_ in z[1].split('|')}))) if z[0] == 'fn' and 'Broker.' in z[1] else None)
+            if items[0] == ts and _by_method(items[1]) == _by_method(eq):
                 ctx.holds('C14.S5', what, e.site)
             elif unread:
                 ctx.undecided('C14.S5', what, e.site, 'appends %s' % fmt(item)[:120])
